@@ -434,6 +434,101 @@ async fn continuation(h: &mut History, files_at_k: BTreeMap<String, Vec<u8>>, re
     );
 }
 
+/// restart at a point where the node knows a side block, then let that side branch win (honest
+/// blocks built on it until it overtakes), then restart once more: the second start-up must come
+/// up on the branch the node reorganised to. What the first start-up did to the files of blocks
+/// off its longest chain decides whether it can.
+#[allow(clippy::too_many_arguments)]
+async fn side_branch_wins_after_restart(h: &mut History, rng: &mut Rng, files_at_k: BTreeMap<String, Vec<u8>>, mark: &Mark, label: &str, rep: &mut Report, witness: &serde_json::Value) {
+    use saito_core::core::consensus::wallet::Wallet;
+    let lc: BTreeSet<Hash> = h.b.store.ancestors(&mark.tip).into_iter().collect();
+    // a valid side block whose parent is on the longest chain, at most three below the tip
+    let side = mark.known.iter().find(|x| !lc.contains(*x) && h.b.store.has(x) && h.b.store.chain_valid(x) && lc.contains(&h.b.store.get(x).prev) && h.b.store.get(x).id + 3 >= mark.tip_id && h.b.store.get(x).id <= mark.tip_id).cloned();
+    let side = match side {
+        Some(s) => s,
+        None => return,
+    };
+    rep.count("side_branch_restarts_attempted");
+    let key = h.b.actors[h.cfg.replica_key].clone();
+    let mut b_node = Node::new(&key, &h.cfg.params, MemIo::from_files(files_at_k), VClock::new(T0 + 7_200_000), vec![], "http://b.example:1");
+    {
+        let wallet = b_node.wallet.clone();
+        let io = b_node.io.boxed();
+        if crate::panics::catch_async(async move {
+            let mut w = wallet.write().await;
+            Wallet::load(&mut w, io.as_ref()).await;
+        })
+        .await
+        .is_err()
+        {
+            return;
+        }
+    }
+    if b_node.init().await.is_err() || b_node.tip().await.1 != mark.tip {
+        // (restarts that do not come up on the running node's tip are judged elsewhere)
+        return;
+    }
+    // honest blocks on the side block until the branch is two ahead
+    let mut cur = side;
+    let need = mark.tip_id + 2 - h.b.store.get(&side).id;
+    for _ in 0..need {
+        let txs = h.pick_txs(rng, &cur);
+        let with_gt = h.pick_gt(rng, &cur);
+        let spec = BlockSpec { gap: 2 * h.cfg.params.heartbeat, txs, with_gt, gt_miner: 0 };
+        match h.b.extend(rng, &cur, &spec).await {
+            Ok(nh) => {
+                let bytes = h.b.store.get(&nh).bytes.clone();
+                if deliver(&mut b_node, &bytes).await.is_err() {
+                    return;
+                }
+                cur = nh;
+            }
+            Err(_) => return,
+        }
+    }
+    let (b_id, b_tip) = b_node.tip().await;
+    if b_tip != cur {
+        rep.count("side_branch_restarts_branch_not_adopted");
+        return;
+    }
+    rep.count("side_branch_restarts_reorganised");
+    let files = b_node.io.files();
+    let mut c_node = Node::new(&key, &h.cfg.params, MemIo::from_files(files.clone()), VClock::new(T0 + 9_000_000), vec![], "http://c.example:1");
+    {
+        let wallet = c_node.wallet.clone();
+        let io = c_node.io.boxed();
+        let _ = crate::panics::catch_async(async move {
+            let mut w = wallet.write().await;
+            Wallet::load(&mut w, io.as_ref()).await;
+        })
+        .await;
+    }
+    rep.eval();
+    let wit = || {
+        let mut w = witness.clone();
+        w["case"] = json!(format!("{} / side branch wins / second restart", label));
+        w["files"] = json!(files.iter().map(|(k, v)| (k.clone(), hex::encode(v))).collect::<Vec<_>>());
+        w["replica_key"] = json!(h.cfg.replica_key);
+        w
+    };
+    if let Err(p) = c_node.init().await {
+        rep.violation(&format!("C12|clause=restart-panics|stage=second-restart|{}", p.signature()), &format!("{}: the second start-up panicked: {}", label, p.message), wit());
+        return;
+    }
+    let (c_id, c_tip) = c_node.tip().await;
+    if c_tip == b_tip {
+        rep.count("side_branch_second_restarts_same_tip");
+        return;
+    }
+    let holds_tip = { c_node.chain.read().await.blocks.contains_key(&b_tip) };
+    let has_side_file = files.keys().any(|k| k.contains(&hex::encode(side)));
+    rep.violation(
+        if has_side_file { "C12|clause=second-restart-loses-the-chain|after=side-branch-won" } else { "C12|clause=second-restart-loses-the-chain|after=side-branch-won|side-block-file-gone" },
+        &format!("{}: the node restarted on {} knowing side block {} ({}), that branch then won and the node sat at {} ({}); after a second clean restart it sits at {} ({}) (holds the new tip: {}; the side block's file is {} in its block directory)", label, mark.tip_id, h.b.store.get(&side).id, hex::encode(&side[..3]), b_id, hex::encode(&b_tip[..3]), c_id, hex::encode(&c_tip[..3]), holds_tip, if has_side_file { "still" } else { "no longer" }),
+        wit(),
+    );
+}
+
 async fn one_history(ctx: &Ctx, rng: &mut Rng, gp: u64, len: usize, fork_permille: u64, rep: &mut Report) {
     let mut params = Params::with_gp(gp);
     params.prune_after = 8;
@@ -536,11 +631,20 @@ async fn one_history(ctx: &Ctx, rng: &mut Rng, gp: u64, len: usize, fork_permill
     // every second clean point that leaves at least three blocks to come
     let wanted: Vec<usize> = clean_ks.iter().enumerate().filter(|(i, _)| i % 2 == 1).map(|(_, k)| *k).collect();
     let mut captured: Vec<(usize, BTreeMap<String, Vec<u8>>)> = vec![];
+    let mut side_captured: Vec<(usize, BTreeMap<String, Vec<u8>>)> = vec![];
+    let side_cap = if ctx.thorough { 12 } else { 5 };
     // budget: every k gets complete + absent; torn variants for a sample of the write ops
     let torn_every = if ctx.thorough { 1 } else { 3 };
     for k in 0..=journal.len() {
         if wanted.contains(&k) && !captured.iter().any(|(kk, _)| *kk == k) {
             captured.push((k, files.clone()));
+        }
+        if clean_ks.contains(&k) && side_captured.len() < side_cap && !side_captured.iter().any(|(kk, _)| *kk == k) {
+            let m = mark_at(k);
+            let lc: BTreeSet<Hash> = h.b.store.ancestors(&m.tip).into_iter().collect();
+            if m.known.iter().any(|x| !lc.contains(x) && h.b.store.has(x) && lc.contains(&h.b.store.get(x).prev) && h.b.store.get(x).id + 3 >= m.tip_id && h.b.store.get(x).id <= m.tip_id) {
+                side_captured.push((k, files.clone()));
+            }
         }
         // --- all of ops[0..k] complete
         let m = mark_at(k);
@@ -577,6 +681,12 @@ async fn one_history(ctx: &Ctx, rng: &mut Rng, gp: u64, len: usize, fork_permill
             }
         }
         apply_op(&mut files, &op, None);
+    }
+    // restarts at clean points where the node knows a side block that then wins
+    let side_points: Vec<(usize, BTreeMap<String, Vec<u8>>)> = side_captured;
+    for (k, f) in side_points {
+        let m = mark_at(k).clone();
+        side_branch_wins_after_restart(&mut h, rng, f, &m, &format!("restart at ops[0..{}]", k), rep, &witness).await;
     }
     for (k, f) in captured {
         let rest: Vec<Hash> = delivered.iter().filter(|(start, _)| *start >= k).map(|(_, x)| *x).collect();
